@@ -142,7 +142,10 @@ LEAF_KINDS = ['sym:%d', 'role:r%d', 'rule:n%d', 'a.b%d:%%(x)s',
               # characters beyond ASCII and beyond the BMP (a dump escapes
               # them; the loader has to put them together again)
               'role:\U0001f600%d', 'role:caf\u00e9%d',
-              "'\U0001f600':%%(x)s"]
+              "'\U0001f600':%%(x)s",
+              # a lone quote character inside a leaf (o'brien): quotes only
+              # matter to the tokenizer at both ends of a token
+              "role:o'brien%d", 'role:say"%d', "role:it's%d"]
 
 
 def _gen_nested(rng, budget, nleaf):
@@ -189,9 +192,10 @@ def run_nested(ctx, seed, index, budget):
     # through the credentials / enforcer; http leaves are replaced by sym
     enf = common.mk_enforcer(rules=policy.Rules.from_dict(
         {'n%d' % i: 'sym:n%d' % i for i in range(4)}))
-    creds = {'roles': ctx.roles('role', ['r0', 'r1', 'r2', 'r3'] + [
-        p + str(i) for p in ('\U0001f600', 'caf\u00e9') for i in range(4)
-        if 'role:%s%d' % (p, i) in text])}
+    import re
+    creds = {'roles': ctx.roles('role', ['r0', 'r1', 'r2', 'r3'] + sorted(
+        set(re.findall(r'role:([^\s()]+)', text)) - {'r0', 'r1', 'r2',
+                                                      'r3'}))}
     semantic = 'http:' not in text
     # generic leaves are compared on targets that make them pass or fail
     tmenu = [{}, {'ids': [1, 2], 'x': 'inf', 'y': {'z': 'lit0'}},
@@ -403,7 +407,8 @@ def run_rulesets(ctx, seed, index):
     e1 = common.mk_enforcer(rules=rules, default_rule='p0')
     e2 = common.mk_enforcer(rules=again, default_rule='p0')
     creds = {'roles': ctx.roles('role', ['r0', 'r1', 'r2', '\U0001f6000',
-                                         '\U0001f6001', 'caf\u00e91'])}
+                                         '\U0001f6001', 'caf\u00e91',
+                                         "o'brien1", 'say"2', "it's0"])}
     semantic = 'http:' not in dumped
     for name in sorted(rules):
         if name not in again:
